@@ -23,3 +23,19 @@ func reducerBroadcasted(y tensor.Tensor, x tensor.Tensor, dim int) (o tensor.Ten
 
 	return o, nil
 }
+
+// patchedRegion is the region of a patch target covered by a source of shape
+// srcDims: explicit ranges as given; along dimensions whose range is omitted
+// (or {0,0}) the source was written at offset 0 with its own size.
+func patchedRegion(index []tensor.Range, srcDims []int) (region []tensor.Range) {
+	region = make([]tensor.Range, len(srcDims))
+	for i := range region {
+		if i >= len(index) || (index[i].From == 0 && index[i].To == 0) {
+			region[i] = tensor.Range{From: 0, To: srcDims[i]}
+		} else {
+			region[i] = index[i]
+		}
+	}
+
+	return region
+}
